@@ -133,7 +133,7 @@ def equal_exact(kind, impl, model):
     if kind == 'Z':
         if np.array_equal(impl, model):
             return True, ''
-        idx = np.argwhere(impl != model)[0]
+        idx = np.argwhere(~(impl == model))[0]
         return False, 'first diff at %s: impl %r model %r' % (tuple(idx), impl[tuple(idx)], model[tuple(idx)])
     if kind == 'Q':
         mf = model.to_float()
@@ -141,7 +141,7 @@ def equal_exact(kind, impl, model):
         d = np.abs(impl - mf)
         if (d <= tol).all():
             return True, ''
-        idx = np.argwhere(d > tol)[0]
+        idx = np.argwhere(~(d <= tol))[0]
         return False, 'first diff at %s: impl %r model %r' % (tuple(idx), impl[tuple(idx)], mf[tuple(idx)])
     if kind == 'F':
         mf = np.asarray(model, dtype=np.float64)
@@ -151,6 +151,6 @@ def equal_exact(kind, impl, model):
         d = np.abs(impl - mf)
         if (d <= 1e-9 * sc).all():
             return True, ''
-        idx = np.argwhere(d > 1e-9 * sc)[0]
+        idx = np.argwhere(~(d <= 1e-9 * sc))[0]
         return False, 'first diff at %s: impl %r model %r' % (tuple(idx), impl[tuple(idx)], mf[tuple(idx)])
     raise ValueError(kind)
